@@ -1,11 +1,15 @@
 // C10 harness TU: the real StdBackend<Impl> status predicates on an object image.
 #include "mp/backend-std.h"
+extern "C" void vf_handle_solution(int status, double obj);
 struct P;
 template<class Tag, typename Tag::type M> struct Rob { friend typename Tag::type get(Tag) { return M; } };
 struct StatusTag { typedef std::pair<int, std::string> mp::StdBackend<P>::*type; friend type get(StatusTag); };
 struct P : mp::StdBackend<P> {
   void Solve() override {}
-  mp::Solution GetSolution() override { return {}; }
+  static int n_objvals; static double objval0;
+  mp::Solution GetSolution() override { mp::Solution s; s.objvals.assign((size_t)n_objvals, objval0); return s; }
+  void HandleSolution(int status, fmt::CStringRef msg, const double*, const double*, double obj) override { vf_handle_solution(status, obj); }
+  static void f_report(P* p) { p->ReportSolution2AMPL(); }
   mp::ArrayRef<double> GetObjectiveValues() override { return {}; }
   bool IsMIP() const override { return false; }
   void SetInterrupter(mp::Interrupter*) override {}
@@ -30,6 +34,9 @@ struct P : mp::StdBackend<P> {
 template struct Rob<StatusTag, &mp::StdBackend<P>::status_>;
 void P::set_code(P* p, int c) { (static_cast<mp::StdBackend<P>*>(p)->*get(StatusTag())).first = c; }
 #define W extern "C" __attribute__((noinline))
+int P::n_objvals = 0; double P::objval0 = 0;
+// final solution report: message composition and the (code, objective value) pair handed to the solution handler
+W int w_report(P* p, int nobj, double obj0) { try { P::n_objvals = nobj; P::objval0 = obj0; P::f_report(p); return 0; } catch (...) { return 3; } }
 W unsigned long w_sizeof() { return sizeof(P); }
 W void w_set_code(P* p, int c) { P::set_code(p, c); }
 W int w_solved(P* p) { return P::f_solved(p); }
